@@ -86,6 +86,7 @@ Forms ==
     Fixed("RIM", 32, Only85, "next"), Fixed("SIM", 48, Only85, "next")
   }
 
+After(cpu, prev, form, units) == units
 Skipped(cpu, form, ops) == FALSE
 Unjudged(cpu, form, ops) == FALSE
 DefinedCount(cpu) == IF cpu = "8080" THEN 244 ELSE 246
